@@ -107,6 +107,12 @@ fn random_instant_raw(rng: &mut Rng) -> i64 {
       let k = 24 * rng.range(2, 9997) as usize + *rng.pick(&[1usize, 3, 3, 5, 23]);
       t.v[k].sec + rng.range(-7200, 7200)
     }
+    2 => {
+      // the seams of a civil year: the six days either side of 1 January, where the lunar year of a day and the
+      // civil year relate in all the ways they can
+      let n = c.year_first(rng.range(2, 9998)) + rng.range(-6, 5);
+      (n * 86400 + rng.range(0, 86399)).clamp(lo, hi)
+    }
     _ => rng.range(lo, hi),
   }
 }
